@@ -10,7 +10,7 @@ func (p *Parser) parseDo(parser *Parser) (Node, error) {
 	doLine := parser.tokens[parser.tokenIndex-2].Line
 
 	// Check if we have an empty do tag ({% do %})
-	if parser.tokenIndex < len(parser.tokens) && parser.tokens[parser.tokenIndex].Type == TOKEN_BLOCK_END {
+	if parser.tokenIndex < len(parser.tokens) && isBlockEndToken(parser.tokens[parser.tokenIndex].Type) {
 		// Empty do tag is not valid
 		return nil, fmt.Errorf("do tag cannot be empty at line %d", doLine)
 	}
@@ -36,7 +36,7 @@ func (p *Parser) parseDo(parser *Parser) (Node, error) {
 			}
 
 			// Stop scanning if we hit the end of the block
-			if token.Type == TOKEN_BLOCK_END {
+			if isBlockEndToken(token.Type) {
 				break
 			}
 		}
@@ -67,7 +67,7 @@ func (p *Parser) parseDo(parser *Parser) (Node, error) {
 				}
 
 				// Make sure we have the closing tag
-				if parser.tokenIndex >= len(parser.tokens) || parser.tokens[parser.tokenIndex].Type != TOKEN_BLOCK_END {
+				if parser.tokenIndex >= len(parser.tokens) || !isBlockEndToken(parser.tokens[parser.tokenIndex].Type) {
 					return nil, fmt.Errorf("expecting end of do tag at line %d", doLine)
 				}
 				parser.tokenIndex++
@@ -94,7 +94,7 @@ func (p *Parser) parseDo(parser *Parser) (Node, error) {
 	}
 
 	// Make sure we have the closing tag
-	if parser.tokenIndex >= len(parser.tokens) || parser.tokens[parser.tokenIndex].Type != TOKEN_BLOCK_END {
+	if parser.tokenIndex >= len(parser.tokens) || !isBlockEndToken(parser.tokens[parser.tokenIndex].Type) {
 		return nil, fmt.Errorf("expecting end of do tag at line %d", doLine)
 	}
 	parser.tokenIndex++
